@@ -258,7 +258,7 @@ def run_case(case, obs) -> None:
                                       "int": ispec, "eps": round(eps, 5)})
     try:
         if case["kind"] == "steps":
-            st = m.state(q, p, int(rng.choice([-1, 1])))
+            st = m.used_state(q, p, int(rng.choice([-1, 1])), ["fresh", "pickle", "copy", "deepcopy"][int(case["seed"][-1]) % 4])
             # start state contract (harness side): on manifold and cotangent
             c0, cot0 = _residuals(m, st.pos, st.mom)
             if c0 > 1e-10 or cot0 > 1e-9:
